@@ -84,8 +84,13 @@ type FilterConfig struct {
 
 // cacheItem represents an item that we will store in the cache.
 type cacheItem struct {
-	// res is the filtering result.
-	res internal.Result
+	// matched is the hostname from the hash storage that host has matched.  It
+	// is empty if host hasn't matched anything.
+	//
+	// NOTE:  Do not cache the filtering result itself, since it depends on the
+	// message and the message constructor of the request, such as the blocking
+	// mode, the TTL of filtered responses, and the EDNS data.
+	matched string
 
 	// host is the cached normalized hostname for later cache key collision
 	// checks.
@@ -178,13 +183,20 @@ func (f *Filter) FilterRequest(
 	cacheKey := internal.NewCacheKey(host, qt, cl, false)
 	item, ok := f.itemFromCache(ctx, cacheKey, host)
 	f.updateCacheLookupsMetrics(ok)
-	if ok {
-		return f.clonedResult(req.DNS, item.res), nil
+
+	fam, isFlt := isFilterable(qt)
+	if !isFlt {
+		return nil, nil
 	}
 
-	fam, ok := isFilterable(qt)
-	if !ok {
-		return nil, nil
+	if ok {
+		if item.matched == "" {
+			return nil, nil
+		}
+
+		// Construct the result anew for every request, since it depends on the
+		// request message and its message constructor.
+		return f.filteredResult(req, item.matched, fam)
 	}
 
 	var matched string
@@ -199,8 +211,8 @@ func (f *Filter) FilterRequest(
 
 	if matched == "" {
 		f.resCache.Set(cacheKey, &cacheItem{
-			res:  nil,
-			host: host,
+			matched: "",
+			host:    host,
 		})
 
 		return nil, nil
@@ -212,7 +224,10 @@ func (f *Filter) FilterRequest(
 		return nil, err
 	}
 
-	f.setInCache(cacheKey, r, host)
+	f.resCache.Set(cacheKey, &cacheItem{
+		matched: matched,
+		host:    host,
+	})
 
 	f.updateCacheSizeMetrics(f.resCache.Len())
 
@@ -257,21 +272,6 @@ func isFilterable(qt dnsmsg.RRType) (fam netutil.AddrFamily, ok bool) {
 	fam = netutil.AddrFamilyFromRRType(qt)
 
 	return fam, fam != netutil.AddrFamilyNone
-}
-
-// clonedResult returns a clone of the result based on its type.  r must be nil,
-// [*internal.ResultModifiedRequest], or [*internal.ResultModifiedResponse].
-func (f *Filter) clonedResult(req *dns.Msg, r internal.Result) (clone internal.Result) {
-	switch r := r.(type) {
-	case nil:
-		return nil
-	case *internal.ResultModifiedRequest:
-		return r.Clone(f.cloner)
-	case *internal.ResultModifiedResponse:
-		return r.CloneForReq(f.cloner, req)
-	default:
-		panic(fmt.Errorf("hashprefix: unexpected type for result: %T(%[1]v)", r))
-	}
 }
 
 // filteredResult returns a filtered request or response.
@@ -333,29 +333,6 @@ func (f *Filter) respForFamily(
 		req.Messages.AddEDE(req.DNS, resp, dns.ExtendedErrorCodeFiltered)
 
 		return resp, nil
-	}
-}
-
-// setInCache sets r in cache.  It clones the result to make sure that
-// modifications to the result message down the pipeline don't interfere with
-// the cached value.  r must be either [*internal.ResultModifiedRequest] or
-// [*internal.ResultModifiedResponse].
-//
-// See AGDNS-359.
-func (f *Filter) setInCache(k internal.CacheKey, r internal.Result, host string) {
-	switch r := r.(type) {
-	case *internal.ResultModifiedRequest:
-		f.resCache.Set(k, &cacheItem{
-			res:  r.Clone(f.cloner),
-			host: host,
-		})
-	case *internal.ResultModifiedResponse:
-		f.resCache.Set(k, &cacheItem{
-			res:  r.Clone(f.cloner),
-			host: host,
-		})
-	default:
-		panic(fmt.Errorf("hashprefix: unexpected type for result: %T(%[1]v)", r))
 	}
 }
 
